@@ -57,5 +57,20 @@ Scen4 ==
     \* a normal law whose mean lies two standard deviations outside the interval (2 % acceptance): still the conditioned normal law
     \cup {[Base EXCEPT !.lo = -1, !.den = 4, !.nb = 10, !.lo4 = -4, !.mean4 = <<-8>>, !.mean = <<-8>>, !.std = 2, !.dim = 1]
              @@ [expr |-> I1, law |-> "gauss", N |-> 4096, log |-> "boxes", check |-> "gauss"]}
-ASSUME ndJsonSerialize(IOEnv.OUT_FILE, SetToSeq(Scen \cup Scen2 \cup Scen3 \cup Scen4)) /\ PrintT(<<"SCENARIOS", Cardinality(Scen \cup Scen2 \cup Scen3 \cup Scen4)>>)
+\* ---- small grids on extreme shapes, accumulated over many calls on one object (d calls of std points each, N = d * std): a thin
+\* strip of aspect ratio 20 / 10, a thin triangle, the L-shaped polygon; every 2 x 2 cell in which a single grid is expected to
+\* put at least two points receives at least a quarter of its share
+Scen5 == {[Base EXCEPT !.d = 60, !.std = nn, !.size = 2, !.nb = 4, !.g = 16] @@ [expr |-> x, law |-> "grid_acc", N |-> 60 * nn, log |-> "boxes", check |-> "gridacc"]
+             : x \in {Par(V2(-10, -2), V2(10, -2), V2(-10, -1)), Par(V2(-2, -10), V2(0, -10), V2(-2, 10)), Tri(V2(-10, -4), V2(10, -4), V2(-10, -2)),
+                      Poly(<<RingL>>), Cir(V2(0, 0), A0(6))}, nn \in {5, 12}}
+\* ---- dependent products: the marginal law of the second factor's coordinate u is proportional to the measure of the first factor at u
+\* (disc of radius 3/2 + u resp. a rectangle of width 2 + u; Boolean first factors only have a documented volume ESTIMATE and are left out), also after a tiny first call on the same object
+Scen6 == {[Base EXCEPT !.den = 4, !.nb = 32, !.g = 4, !.dim = 1, !.pre = pr] @@ [expr |-> Pr(x, i), law |-> "uniform", N |-> 8192, log |-> "boxes", check |-> "depmarg", proj |-> "u"]
+             : x \in {DepCirR, Par(V2(-8, -4), <<A1(0, "u"), A0(-4)>>, V2(-8, 4))},
+               i \in {[k |-> "interval", v |-> "u", lo |-> A0(-4), hi |-> A0(6)]}, pr \in {<<>>, <<Pre("uniform", 2)>>}}
+\* ... and a batch of two parameter rows whose discs differ in size by a factor of about four (radius 1/2 + u + k, k = 0 then k = 2)
+DepCirK == Cir(V2(0, 0), [c |-> 2, k |-> [nm \in {"u", "k"} |-> 1]])
+Scen7 == {[Base EXCEPT !.den = 4, !.nb = 32, !.g = 4, !.dim = 1, !.rows = Rows2, !.judge = j, !.row = Rows2[j]]
+             @@ [expr |-> Pr(DepCirK, [k |-> "interval", v |-> "u", lo |-> A0(0), hi |-> A0(4)]), law |-> "uniform", N |-> 8192, log |-> "boxes", check |-> "depmarg", proj |-> "u"] : j \in 1..2}
+ASSUME ndJsonSerialize(IOEnv.OUT_FILE, SetToSeq(Scen \cup Scen2 \cup Scen3 \cup Scen4 \cup Scen5 \cup Scen6 \cup Scen7)) /\ PrintT(<<"SCENARIOS", Cardinality(Scen \cup Scen2 \cup Scen3 \cup Scen4 \cup Scen5 \cup Scen6 \cup Scen7)>>)
 ==========================================================================
